@@ -14,7 +14,7 @@ for d in sorted(glob.glob(VERIF + "/seeded/C*-*")):
     meta = json.load(open(d + "/meta.json"))
     r = subprocess.run(["git", "-C", "/repo", "apply", d + "/patch.diff"])
     if r.returncode != 0:
-        rows.append((name, pid, "patch does not apply", ""))
+        rows.append((name, pid, "patch does not apply", "", ""))
         continue
     try:
         p = subprocess.run(["timeout", "900", "./check", pid, "--tier", "quick"], cwd=VERIF, stdout=subprocess.PIPE, stderr=subprocess.STDOUT, text=True)
@@ -29,7 +29,14 @@ for d in sorted(glob.glob(VERIF + "/seeded/C*-*")):
                 except Exception:
                     sig = line
                 break
-        rows.append((name, pid, {0: "MISSED", 1: "caught"}.get(p.returncode, "rc=%d" % p.returncode), sig))
+        rp = ""
+        if p.returncode == 1 and sig:
+            # the replay must fail on the changed tree and pass on the unchanged one
+            a = subprocess.run(["timeout", "900", "./check", pid, "--replay", path], cwd=VERIF, stdout=subprocess.PIPE, stderr=subprocess.STDOUT, text=True)
+            subprocess.run(["git", "-C", "/repo", "checkout", "--", "."])
+            b = subprocess.run(["timeout", "900", "./check", pid, "--replay", path], cwd=VERIF, stdout=subprocess.PIPE, stderr=subprocess.STDOUT, text=True)
+            rp = "replay %d/%d" % (a.returncode, b.returncode)
+        rows.append((name, pid, {0: "MISSED", 1: "caught"}.get(p.returncode, "rc=%d" % p.returncode), sig, rp))
     finally:
         subprocess.run(["git", "-C", "/repo", "checkout", "--", "."])
         shutil.rmtree(VERIF + "/evidence/replays", ignore_errors=True)
@@ -39,6 +46,7 @@ shutil.rmtree(save, ignore_errors=True)
 if not only:
     with open(VERIF + "/seeded/RESULTS.md", "w") as fh:
         fh.write("# Seeded changes vs. the check of their own property (quick tier)\n\n")
-        fh.write("| seed | property | outcome | reported as |\n|---|---|---|---|\n")
+        fh.write("replay a/b = exit code of `./check Cxx --replay <file>` with the change applied / on the unchanged tree (expected 1/0)\n\n")
+        fh.write("| seed | property | outcome | reported as | replay |\n|---|---|---|---|---|\n")
         for r in rows:
-            fh.write("| %s | %s | %s | %s |\n" % (r[0], r[1], r[2], r[3].replace("|", "\\|")))
+            fh.write("| %s | %s | %s | %s | %s |\n" % (r[0], r[1], r[2], r[3].replace("|", "\\|"), r[4] if len(r) > 4 else ""))
